@@ -14,7 +14,7 @@ from .. import problems as P
 
 HERE = Path(__file__).resolve().parents[1]
 REPO = os.environ.get("OPENPINCH_REPO", "/repo")
-KINDS = ["svc_dict", "svc_dict", "svc_model", "svc_same_model", "pp"]
+KINDS = ["svc_dict", "svc_dict", "svc_model", "svc_same_model", "pp", "svc_dict_of_models"]
 
 
 def run_worker(problems, ops):
@@ -37,6 +37,20 @@ def gen_pool(rng, m):
     for k in range(m):
         pr = P.gen_problem(rng, labels=sets[k % len(sets)], with_tree=(rng.random() < 0.2),
                            util_kind=rng.choice(["none", "ladder", "outside", "mixed"]))
+        if k % 3 == 2 or rng.random() < 0.25:
+            # a user tree with generic node types, and streams placed on the root or on a zone that has sub-zones
+            labs = sets[k % len(sets)]
+            pr["zone_tree"] = P.tree_from_labels(labs, root="Works")
+
+            def retag(n, depth=0):
+                n["type"] = rng.choice(["Zone", "Zone", "Sub-Zone", "Process Zone"]) if depth else rng.choice(["Site", "Zone"])
+                for c in n.get("children") or []:
+                    retag(c, depth + 1)
+            retag(pr["zone_tree"])
+            inner = ["Works"] + sorted({l.split("/")[0] for l in labs if "/" in l})
+            for s in pr["streams"]:
+                if rng.random() < 0.35:
+                    s["zone"] = rng.choice(inner)
         pool.append(pr)
     return pool
 
